@@ -2,6 +2,8 @@ package main
 
 import (
 	"bytes"
+	"encoding/binary"
+	"runtime"
 	"fmt"
 	"math/rand"
 	"sync"
@@ -17,6 +19,25 @@ import (
 // that makes no progress for 20 s is a deadlock.
 // ---------------------------------------------------------------------------------------------
 
+// ctr is a binary record with an additive user merge (record merges go through pooled scratch objects)
+type ctr struct{ n, pad int64 }
+
+func (r *ctr) MarshalBinary() ([]byte, error) {
+	var b [16]byte
+	binary.BigEndian.PutUint64(b[:8], uint64(r.n))
+	binary.BigEndian.PutUint64(b[8:], uint64(r.pad))
+	return b[:], nil
+}
+
+func (r *ctr) UnmarshalBinary(d []byte) error {
+	if len(d) != 16 {
+		return fmt.Errorf("ctr: %d bytes", len(d))
+	}
+	r.n = int64(binary.BigEndian.Uint64(d[:8]))
+	r.pad = int64(binary.BigEndian.Uint64(d[8:]))
+	return nil
+}
+
 func stressColl() *column.Collection {
 	c := column.NewCollection(column.Options{Capacity: 64, Vacuum: 5 * time.Millisecond})
 	c.CreateColumn("a", column.ForInt64())
@@ -24,6 +45,12 @@ func stressColl() *column.Collection {
 	c.CreateColumn("sum", column.ForInt64())
 	c.CreateColumn("s", column.ForString())
 	c.CreateColumn("flag", column.ForBool())
+	c.CreateColumn("rc", column.ForRecord(func() *ctr { return new(ctr) }, column.WithMerge(func(v, d *ctr) *ctr {
+		runtime.Gosched() // a user merge function may block or yield: other merges run meanwhile
+		v.n += d.n
+		v.pad = d.pad
+		return v
+	})))
 	c.CreateIndex("big", "a", func(r column.Reader) bool { return r.Int() > 100 })
 	return c
 }
@@ -104,6 +131,13 @@ func runStress(rep *Report, replay string) {
 			return nil
 		})
 	}
+	// two counter rows holding a record, one in chunk 0 and one in chunk 1 (merged concurrently)
+	recRows := []uint32{460, 16384 + 5}
+	insertMarkers(c, recRows[1])
+	for _, rr := range recRows {
+		c.QueryAt(rr, func(row column.Row) error { return row.SetRecord("rc", &ctr{}) })
+	}
+	var recMerged [2]int64
 	var stop int32
 	var ops int64
 	var torn, lost int64
@@ -124,6 +158,7 @@ func runStress(rep *Report, replay string) {
 	// writers: update several columns of one row, preserving the per-row invariant; merges on a counter row
 	var merged int64
 	for w := 0; w < 4; w++ {
+		w := w
 		worker(w, func(r *rand.Rand) {
 			idx := uint32(r.Intn(400))
 			v := int64(r.Intn(1000))
@@ -136,6 +171,10 @@ func runStress(rep *Report, replay string) {
 			})
 			c.QueryAt(450, func(row column.Row) error { row.MergeInt64("b", 1); return nil })
 			atomic.AddInt64(&merged, 1)
+			// record merge on the counter row of "this" writer's chunk: writers 0,1 → chunk 0; 2,3 → chunk 1
+			k := w / 2
+			c.QueryAt(recRows[k], func(row column.Row) error { return row.MergeRecord("rc", &ctr{n: 1, pad: int64(w)}) })
+			atomic.AddInt64(&recMerged[k], 1)
 		})
 	}
 	// readers: point reads, Range, filtered Range; assert the invariant inside the callback
@@ -267,6 +306,18 @@ func runStress(rep *Report, replay string) {
 	if counter != 900+merged {
 		addV("lost", fmt.Sprintf("counter row: %d after %d committed +1 merges onto 900 (lost %d)", counter, merged, 900+merged-counter))
 		lost++
+	}
+	for k, rr := range recRows {
+		var got int64 = -1
+		c.QueryAt(rr, func(row column.Row) error {
+			if v, ok := row.Record("rc"); ok {
+				got = v.(*ctr).n
+			}
+			return nil
+		})
+		if got != recMerged[k] {
+			addV("lost", fmt.Sprintf("record counter at row %d: %d after %d committed +1 record merges (chunk %d; merges of the other chunk ran concurrently)", rr, got, recMerged[k], k))
+		}
 	}
 	// Count = live rows at quiescence
 	live := 0
